@@ -51,15 +51,16 @@ class Unsupported(Exception):
 # operand: ("F", b) | ("T", b, stride)    op: dict(vid, kind, ins, outs, acc)
 
 def gen_loop(rng, adversarial=False):
-    """a loop description in which no stage names the same buffer/tile twice (pipeline-duplicate-buffers then
-    emits IR the verifier rejects: loud, outside the property)"""
+    """a loop description; an op never names the same buffer twice (linalg.generic would alias in and out),
+    a stage may (two ops of one stage reading the same buffer)"""
     while True:
         d = _gen_loop(rng, adversarial)
         ok = True
         for st in d["stages"]:
-            opnds = [x for o in st for x in o["ins"] + o["outs"]]
-            if len(opnds) != len(set(opnds)):
-                ok = False
+            for o in st:
+                opnds = o["ins"] + o["outs"]
+                if len(opnds) != len(set(opnds)):
+                    ok = False
         if ok:
             return d
 
@@ -81,7 +82,7 @@ def _gen_loop(rng, adversarial=False):
                 src = ("T", 0, stride) if k == 0 else ("F", prev)
                 dst = ("T", 1, stride) if k == S - 1 else ("F", allocs[k])
             else:  # a second, independent op of the stage on its own private buffers
-                src = ("T", 2, stride)
+                src = ("T", 2, stride) if rng.random() < 0.6 else rng.choice(ops[0]["ins"])
                 dst = ("F", allocs[S])
                 if any(o["outs"] == [dst] for st in stages for o in st) or rng.random() < 0.5:
                     src, dst = ("F", allocs[S]), ("T", 2, stride)
